@@ -26,7 +26,7 @@ ITEXT_ANY = re.compile(r"jr:itext\('([^']*)'\)")
 @st.composite
 def _cases(draw):
     # lang_pool=7 adds 'English' and 'French' beside 'English (en)' / 'French (fr)': the same name with and without a code
-    prof = dict(gen.PROFILES["i18n"], lang_pool=9, p_osm=0.06, p_reuse_names=0.3, p_search_randomize=1, p_randomize=0.35, p_noapp=0.06, p_group_media=0.1, p_search=0.12, p_choice_nolabel=0.08, p_or_other=0.1, p_table_list=0.06, p_choice_label_ref=0.1,
+    prof = dict(gen.PROFILES["i18n"], lang_pool=9, p_osm=0.1, p_osm_media=0.4, p_reuse_names=0.3, p_search_randomize=1, p_randomize=0.35, p_noapp=0.06, p_group_media=0.1, p_search=0.12, p_choice_nolabel=0.08, p_or_other=0.1, p_table_list=0.06, p_choice_label_ref=0.1,
                 settings="some", p_group=0.2, p_repeat=0.15, p_choice_filter=0.2, p_extra_cols=0.4,
                 # extra choices columns named like elements the converter generates itself
                 extra_col_names=["itextId", "itext", "label", "value", "name_", "item", "id"], p_prefixed_names=0.08)
